@@ -55,6 +55,9 @@ func genIndConfig(rng *rand.Rand, e *IndEntity, allowDefault bool) (cfg []int, s
 				cfg[i] = 250 + rng.Intn(70) // a trading year (the longest default in the library is 255)
 			}
 		}
+		if e.ZeroAt > 0 && rng.Intn(6) == 0 {
+			cfg[e.ZeroAt-1] = 0 // no displacement at all
+		}
 		return cfg, 1
 	case x < 88 || !allowDefault:
 		return nil, []int{2, 3, 4, 6, 8}[rng.Intn(5)]
